@@ -553,6 +553,8 @@ fn exec_batch(w: &mut World, batch: &[Op], salt: u64, ctx: &mut CaseCtx) -> Resu
                     return Err(LspError::Timeout(t));
                 }
                 ctx.class("expected_publication_missing_on_an_idle_server");
+                // an idle server sends nothing more: no point in waiting for the other documents
+                break;
             }
             Err(e) => return Err(e),
         }
@@ -969,7 +971,7 @@ pub fn run(run: &mut Run) {
     run.rule = "histories of 1-8 (thorough 14) batches of 1-4 messages sent back-to-back to the real harper-ls over 4 documents (Markdown, plain, Rust, an untitled: buffer): didOpen / didChange / didSave / didClose / didChangeWatchedFiles(delete) / executeCommand(AddToUserDict, AddToFileDict, IgnoreLint, RecordLint) / didChangeConfiguration (7 settings); for each batch a generated order in which the harness answers the handlers' workspace/configuration requests = the order in which the in-flight handlers complete. Must-hold sub-space: at most one message per document in a batch, dictionary/config commands alone, disk-reading operations only with buffer == disk, an added user word not present in other open documents. After every batch the most recent publication of every document must equal what a second, trivially sequential harper-ls process publishes for its newest text under the current settings and dictionaries (closed/deleted: empty). The four designed-in violations outside that sub-space are exercised in labelled sub-runs. Non-trivial = handlers completed out of arrival order, or a close/delete inside a concurrent batch.".into();
     run.threads = run.threads.min(6);
     finding_subruns(run);
-    run.max_shrink_iters = 80;
+    run.max_shrink_iters = 24;
     let n = run.n(150, 2_000);
     let max_batches = run.tier.pick(8usize, 14usize);
     run.prop("scheduled_histories", n, move || history_strategy(max_batches), test_history);
